@@ -532,6 +532,37 @@ def _spline(src):
     return L
 
 
+FV = "lib/fff/fff_vector.c"
+
+
+def _scans(src, rel, fns):
+    """the two sentinel scans of a partition pass as written (no bounds test): test on the cell read and index step"""
+    ops = {"<": "decide (v < a)", "<=": "decide (v ≤ a)", ">": "decide (v > a)", ">=": "decide (v ≥ a)"}
+    L = []
+    for fn, tag in fns:
+        body = squash(function_body(src, fn, rel))
+        ms = re.findall(r"while\(\*bufl([<>=]+)a\)\{i(\+\+|--);bufl([+-])=stride;\}"
+                        r"while\(\*bufr([<>=]+)a\)\{j(\+\+|--);bufr([+-])=stride;\}", body)
+        if len(ms) != 1 or body.count("while(*buf") != 2 or any(o not in ops for o in (ms[0][0], ms[0][3])):
+            raise Shape(f"{rel}: {fn}: the two sentinel scans `while (*bufl < a)` / `while (*bufr > a)` not recognised")
+        o1, d1, q1, o2, d2, q2 = ms[0]
+        if (d1 == "++") != (q1 == "+") or (d2 == "++") != (q2 == "+"):
+            raise Shape(f"{rel}: {fn}: index and pointer of a sentinel scan move in different directions")
+        L += [f"/-- `{fn}`: `while (*bufl {o1} a) {{i{d1}; bufl {q1}= stride;}}` — the test on the cell read -/",
+              f"def scanUpTest{tag} (v a : Rat) : Bool := {ops[o1]}",
+              f"/-- `{fn}`: the step of `i` in that loop -/",
+              f"def scanUpStep{tag} : Int := {'1' if d1 == '++' else '-1'}",
+              f"/-- `{fn}`: `while (*bufr {o2} a) {{j{d2}; bufr {q2}= stride;}}` -/",
+              f"def scanDownTest{tag} (v a : Rat) : Bool := {ops[o2]}",
+              f"def scanDownStep{tag} : Int := {'1' if d2 == '++' else '-1'}", ""]
+    return L
+
+
+def _fffvec(src):
+    return (["namespace FffVec", ""] + _scans(src, FV, (("_fff_pth_element", "El"), ("_fff_pth_interval", "Iv")))
+            + ["end FffVec", ""])
+
+
 # --------------------------------------------------------------------------------------------------
 # quantile.c
 # --------------------------------------------------------------------------------------------------
@@ -578,25 +609,7 @@ def _quantile(src):
     L += f.clone("wM", f"`quantile`, `interp`: `wM = {m.group(7)}`").value("wM", "Rat")
     L += f.clone("interpSingle", f"`quantile`, `interp`: only `_pth_element(p)` is needed iff `{m.group(9)}` (else "
                                  f"`_pth_interval` selects the order statistics `p` and `p+1`)").cond(m.group(9))
-    # the two sentinel scans of the partition pass, as written in _pth_element and _pth_interval (no bounds test)
-    ops = {"<": "decide (v < a)", "<=": "decide (v ≤ a)", ">": "decide (v > a)", ">=": "decide (v ≥ a)"}
-    for fn in ("_pth_element", "_pth_interval"):
-        body = squash(function_body(src, fn, QT))
-        ms = re.findall(r"while\(\*bufl([<>=]+)a\)\{i(\+\+|--);bufl([+-])=stride;\}"
-                        r"while\(\*bufr([<>=]+)a\)\{j(\+\+|--);bufr([+-])=stride;\}", body)
-        if len(ms) != 1 or body.count("while(*buf") != 2 or any(o not in ops for o in (ms[0][0], ms[0][3])):
-            raise Shape(f"{QT}: {fn}: the two sentinel scans `while (*bufl < a)` / `while (*bufr > a)` not recognised")
-        o1, d1, q1, o2, d2, q2 = ms[0]
-        if (d1 == "++") != (q1 == "+") or (d2 == "++") != (q2 == "+"):
-            raise Shape(f"{QT}: {fn}: index and pointer of a sentinel scan move in different directions")
-        tag = "El" if fn == "_pth_element" else "Iv"
-        L += [f"/-- `{fn}`: `while (*bufl {o1} a) {{i{d1}; bufl {q1}= stride;}}` — the test on the cell read -/",
-              f"def scanUpTest{tag} (v a : Rat) : Bool := {ops[o1]}",
-              f"/-- `{fn}`: the step of `i` in that loop -/",
-              f"def scanUpStep{tag} : Int := {'1' if d1 == '++' else '-1'}",
-              f"/-- `{fn}`: `while (*bufr {o2} a) {{j{d2}; bufr {q2}= stride;}}` -/",
-              f"def scanDownTest{tag} (v a : Rat) : Bool := {ops[o2]}",
-              f"def scanDownStep{tag} : Int := {'1' if d2 == '++' else '-1'}", ""]
+    L += _scans(src, QT, (("_pth_element", "El"), ("_pth_interval", "Iv")))
     L += ["", "end Quantile", ""]
     return L
 
@@ -704,7 +717,7 @@ def translate(repo, TieBroken):
         except OSError as e:
             raise TieBroken(f"cannot read {p}: {e}")
     L = ["/- GENERATED by harness/props/c20_kern.py from the text of /repo:",
-         f"   {MRF}, {JH},", f"   {CS}, {QT}, lib/fff/fff_array.c.  Do not edit. -/",
+         f"   {MRF}, {JH},", f"   {CS}, {QT}, lib/fff/fff_array.c, {FV}.  Do not edit. -/",
          "set_option linter.unusedVariables false",
          "namespace NipyVerif.C20.Kern", "",
          "/-- C `(int)a` for a double within `int` range: truncation toward zero -/",
@@ -720,7 +733,7 @@ def translate(repo, TieBroken):
 
 
 PARTS = [lambda read: _jh(read(JH)), lambda read: _spline(read(CS)), lambda read: _quantile(read(QT)),
-         lambda read: _fff(read(FFA))]
+         lambda read: _fff(read(FFA)), lambda read: _fffvec(read(FV))]
 
 
 if __name__ == "__main__":
